@@ -21,6 +21,8 @@ MCReps  == {"c_refused", "c_boom", "s_epipe", "s_oserr", "r_timeout", "r_eof", "
             "ok_ka", "ok_close", "s503_ka", "r302_ka", "short", "b_boom"}
 MCSmall == {"c_refused", "r_eof", "r_boom", "ok_ka", "ok_close", "s503_ka", "r302_ka", "short"}
 MCTiny  == {"r_eof", "ok_ka", "ok_close", "short", "r302_ka"}
+MCMicro == {"r_eof", "ok_ka", "short"}
+MCDispMicro == {"read", "release", "stream"}
 MCDispAll == {"read", "read2rel", "release", "drain", "close", "stream"}
 MCDispSmall == {"read", "release", "close", "stream"}
 MCNoDefects == {}
